@@ -144,3 +144,130 @@ Fixpoint run_script_list (ops : list rop) (bs : bytes) : list (option bytes) :=
 Definition beq_obs (a b : list (option bytes)) : bool := beq_list (beq_opt beq_bytes) a b.
 Definition script_is (data : bytes) (sched : list nat) (eofd : bool) (ops : list rop) (obs : list (option bytes)) : bool :=
   beq_obs (run_script ops (new_reader data sched eofd)) obs && beq_obs (run_script_list ops data) obs.
+
+(* ------------------------------------------------------------------ the decoder of Model/Tpdu.v over the bufio reader
+   sms.Unmarshal as the code runs it: every function of Model/Tpdu.v that consumes octets, written again with the four
+   primitives above in place of the list primitives, the reader threaded through.  Everything that does not touch the
+   reader (flags, addresses' text, time stamps, validity periods, the struct switch, state_after) IS the function of
+   Model/Tpdu.v.  Proofs/TpduReaderCompose.v: for every schedule this decoder equals the list decoder. *)
+(* getType: peek, err = buf.Peek(1); length := int(peek[0]); peek, err = buf.Peek(length+3); peek[length+1], peek[length+2] *)
+Definition get_type_on (b : breader) : outcome (N * bool * breader) :=
+  do (p1, b1) <- br_peek 1 b;
+  do l <- idx p1 0;
+  do (peek, b2) <- br_peek (N.to_nat (l + 3)) b1;
+  do f <- idx peek (l + 1);
+  do g <- idx peek (l + 2);
+  let dir := if l =? 0 then 1 else 0 in
+  Ok (N.land (N.lor (N.shiftl (N.land f 3) 1) dir) 7, 127 <? g, b2).
+
+Definition addr_read_on (t : g7tab) (b : breader) : outcome (taddr * breader) :=
+  do (length, b1) <- br_read_byte b;
+  if length =? 0 then Ok (addr0, b1) else
+  do (kind, b2) <- br_read_byte b1;
+  let npi := N.land kind 15 in
+  let ton := N.land (N.shiftr kind 4) 7 in
+  let n := ((length + 1) mod 256) / 2 in
+  do (data, b3) <- br_read_full n b2;
+  do no <- addr_text t ton data;
+  Ok ({| a_npi := npi; a_ton := ton; a_no := no |}, b3).
+
+Definition sc_read_on (t : g7tab) (b : breader) : outcome (taddr * breader) :=
+  do (length, b1) <- br_read_byte b;
+  if length =? 0 then Ok (addr0, b1) else
+  do (kind, b2) <- br_read_byte b1;
+  let npi := N.land kind 15 in
+  let ton := N.land (N.shiftr kind 4) 7 in
+  do (data, b3) <- br_read_full (length - 1) b2;
+  do no <- addr_text t ton data;
+  Ok ({| a_npi := npi; a_ton := ton; a_no := no |}, b3).
+
+Definition time_read_gen_on (legacy : bool) (b : breader) : outcome (mtime * breader) :=
+  do (data, b1) <- br_read_full 7 b;
+  do t <- time_of_blocks legacy data (decode_semi data);
+  Ok (t, b1).
+
+Definition rel_read_on (b : breader) : outcome (N * breader) :=
+  do (data, b1) <- br_read_full 1 b;
+  do x <- idx data 0;
+  Ok (rel_dur x, b1).
+
+Definition enh_read_gen_on (legacy : bool) (b : breader) : outcome (vp * breader) :=
+  do (ind, b1) <- br_read_byte b;
+  let fmt := N.land ind 7 in
+  if fmt =? 1 then
+    do (d, b2) <- rel_read_on b1;
+    do b3 <- br_discard 5 b2; Ok (VPEnh d ind, b3)
+  else if fmt =? 2 then
+    do (sec, b2) <- br_read_byte b1;
+    do b3 <- br_discard 5 b2; Ok (VPEnh sec ind, b3)
+  else if fmt =? 3 then
+    let rd := br_read_full 3 b1 in
+    let data := match rd with Ok (data, _) => data | _ => [0; 0; 0] end in
+    let semi := decode_semi data in
+    if negb legacy && (N.of_nat (List.length semi) <? 3) then Err EDecode else
+    do h <- idx semi 0; do m <- idx semi 1; do s <- idx semi 2;
+    do (_, b2) <- rd;
+    do b3 <- br_discard 3 b2; Ok (VPEnh (h * 3600 + m * 60 + s) ind, b3)
+  else
+    do b2 <- br_discard 6 b1; Ok (VPEnh 0 ind, b2).
+
+Open Scope string_scope.
+Definition field_read_on (legacy : bool) (t : g7tab) (st : ustate) (f : tfield) (b : breader)
+  : outcome (tval * breader) :=
+  match f_dkind f with
+  | KByte => do (x, r) <- br_read_byte b; Ok (TVByte x, r)
+  | KFlags fs =>
+    do (c, r) <- br_read_byte b;
+    let vals := unmarshal_flags (fs_fields fs) c 0 in
+    let vals := if fs_dir fs then
+                  match dir_of_tag (f_dirtag f) with Some d => set_direction (fs_fields fs) vals d | None => vals end
+                else vals in
+    Ok (TVFlags vals, r)
+  | KBytes =>
+    do (n, r) <- br_read_byte b;
+    do (data, r2) <- br_read_full n r;
+    Ok (TVBytes data, r2)
+  | KSCAddr => do (a, r) <- sc_read_on t b; Ok (TVAddr a, r)
+  | KAddr => do (a, r) <- addr_read_on t b; Ok (TVAddr a, r)
+  | KTime => do (x, r) <- time_read_gen_on legacy b; Ok (TVTime x, r)
+  | KIface =>
+    if String.eqb (f_tp f) "VP" then
+      if (u_vpf st =? 1)%N then do (v, r) <- enh_read_gen_on legacy b; Ok (TVVP v, r)
+      else if (u_vpf st =? 2)%N then do (d, r) <- rel_read_on b; Ok (TVVP (VPRel d), r)
+      else if (u_vpf st =? 3)%N then do (x, r) <- time_read_gen_on legacy b; Ok (TVVP (VPAbs x), r)
+      else Ok (TVVP VPNone, b)
+    else Ok (TVVP VPNone, b)
+  | KSkip => Ok (TVSkip, b)
+  end.
+
+Fixpoint fields_read_on (legacy : bool) (t : g7tab) (st : ustate) (fs : list tfield) (b : breader)
+  : outcome (list tval) :=
+  match fs with
+  | [] => Ok []
+  | f :: rest =>
+    let skip := match u_pi st with Some (pfs, pv) => negb (pi_has pfs pv (f_tp f)) | None => false end in
+    if skip then
+      do vs <- fields_read_on legacy t st rest b; Ok (zero_val (f_dkind f) :: vs)
+    else
+      do (v, r) <- field_read_on legacy t st f b;
+      do vs <- fields_read_on legacy t (state_after st f v) rest r;
+      Ok (v :: vs)
+  end.
+Close Scope string_scope.
+
+(* Unmarshal: buf := bufio.NewReader(r); getType(buf); the switch; unmarshal(buf, packet) *)
+Definition unmarshal_gen_on (legacy : bool) (E : env) (b : breader) : outcome tpdu :=
+  do (kind, failure, b1) <- get_type_on b;
+  match struct_of kind failure with
+  | None => Err EOther
+  | Some name =>
+    match find_layout (e_layouts E) name with
+    | None => Err EOther
+    | Some l => do vs <- fields_read_on legacy (e_g7 E) st0 (tl_fields l) b1; Ok (name, vs)
+    end
+  end.
+Definition unmarshal_on := unmarshal_gen_on false.
+(* sms.Unmarshal(r) for the reader r that hands out [data] in pieces of the sizes [sched] (then one octet per call),
+   io.EOF with the last piece iff [eofd] *)
+Definition unmarshal_reader (E : env) (data : bytes) (sched : list nat) (eofd : bool) : outcome tpdu :=
+  unmarshal_on E (new_reader data sched eofd).
